@@ -9,6 +9,7 @@ package layers
 import (
 	"encoding/binary"
 	"errors"
+	"fmt"
 
 	"github.com/gopacket/gopacket"
 )
@@ -184,6 +185,9 @@ func (l *LLC) SerializeTo(b gopacket.SerializeBuffer, opts gopacket.SerializeOpt
 // SerializationBuffer, implementing gopacket.SerializableLayer.
 // See the docs for gopacket.SerializableLayer for more info.
 func (s *SNAP) SerializeTo(b gopacket.SerializeBuffer, opts gopacket.SerializeOptions) error {
+	if len(s.OrganizationalCode) != 3 {
+		return fmt.Errorf("SNAP organizational code has %d bytes, must have 3", len(s.OrganizationalCode))
+	}
 	if buf, err := b.PrependBytes(5); err != nil {
 		return err
 	} else {
